@@ -23,7 +23,8 @@ BoundaryPairs == {
      << L("A", "string"), EV("UE1", << L("B", "int8"), L("C", "int64") >>) >> >>,
   << Boundary[18], << L("X", "float64"), L("Y", "uint16"), L("Z", "[]byte"), L("W", "string") >> >>,
   \* one field for each of BiMapF / BiMapB / BiMapS (BiMapI is everywhere)
-  << << L("A", "float64"), L("B", "[]byte"), L("C", "string") >>, << L("X", "string"), L("Y", "float64"), L("Z", "[]byte") >> >> }
+  << << L("A", "float64"), L("B", "[]byte"), L("C", "string"), L("D", "float64"), L("E", "[]byte"), L("F", "string"), L("G", "int32"), L("H", "int32") >>,
+     << L("X", "string"), L("Y", "float64"), L("Z", "[]byte") >> >> }
 
 Init == \E p \in ({<<<<>>, <<>>>>} \cup (IF WithBoundary THEN BoundaryPairs ELSE {})) : sS = p[1] /\ sT = p[2]
 Next == (sT = <<>> /\ SB!Next /\ UNCHANGED sT) \/ (sS # <<>> /\ TB!Next /\ UNCHANGED sS)
